@@ -346,6 +346,9 @@ func (h *handler) OnOpen(c gnet.Conn) ([]byte, gnet.Action) {
 
 func (h *handler) OnTraffic(c gnet.Conn) gnet.Action {
 	st, _ := c.Context().(ConnHooks)
+	if st == nil && h.hooks.Unbound != nil && c.LocalAddr() != nil && strings.HasPrefix(c.LocalAddr().Network(), "udp") {
+		st = h.hooks.Unbound(c) // datagrams of a UDP listener have no OnOpen
+	}
 	if st == nil {
 		h.e.Log.Add(c, -1, "traffic-unbound", "")
 		return gnet.None
